@@ -40,6 +40,9 @@ def run(ctx, rep):
     geometry_rule(f, rep)
     compressed_read_rule(f, rep)
     classification_rule(f, rep, 'C09.6')
+    from . import c20
+    c20.format_rounding_rule(f, rep, 'C09.7')
+    c15.ext_cursor_rule(f, rep, 'C09.8')
 
 
 def flag_bits(f, ev, pred):
